@@ -105,6 +105,7 @@ func c01Check(c *Ctx, gen string, idx int, m *model.Msg) {
 	c.R.Class(e.Class)
 	var l *client.Line
 	var pv interface{}
+	rig.CallTick()
 	func() {
 		defer func() { pv = recover() }()
 		l = client.ParseLine(e.Raw)
